@@ -367,6 +367,28 @@ class PDLInterpFunctions(InterpreterFunctions):
         )
         return ()
 
+    @impl(pdl_interp.EraseOp)
+    def run_erase(
+        self,
+        interpreter: Interpreter,
+        op: pdl_interp.EraseOp,
+        args: tuple[Any, ...],
+    ) -> tuple[Any, ...]:
+        (input_op,) = args
+        assert isinstance(input_op, Operation)
+        self.get_rewriter(interpreter).erase(input_op)
+        return ()
+
+    @impl(pdl_interp.GetAttributeTypeOp)
+    def run_get_attribute_type(
+        self,
+        interpreter: Interpreter,
+        op: pdl_interp.GetAttributeTypeOp,
+        args: tuple[Any, ...],
+    ) -> tuple[Any, ...]:
+        (attr,) = args
+        return (getattr(attr, "type", None),)
+
     @impl(pdl_interp.CreateAttributeOp)
     def run_create_attribute(
         self,
